@@ -106,7 +106,7 @@ def class_of(ev):
 def tour(res, binary, module, cfg_text, label, name, timeout=3000, tags="verif"):
     """TLC exhaustive run -> tour lines (deduplicated) -> replay on the real code."""
     raw = os.path.join(scratch(), name + ".tour.raw")
-    r = tlc(module, cfg_text, emit_to=raw, timeout=timeout)
+    r = tlc(module, cfg_text, emit_to=raw, timeout=timeout, workers=2 if '"quick"' in cfg_text else None)
     res.add_tlc(r, label)
     path = os.path.join(scratch(), name + ".tour")
     seen, n = set(), 0
@@ -279,8 +279,10 @@ def mc_cfg(tier, prop, steps, invariants):
     return cfg({"Tier": '"%s"' % tier, "MaxSteps": steps, "Prop": '"%s"' % prop}, invariants=invariants, emit="Emit", view="View")
 
 
-def _steps(tier):
-    return 2 if tier == "quick" else 3
+def _steps(tier, prop=""):
+    # C35 multiplies every base state by ~35 injections x 2 AllowUnresolvable settings: depth 2 in both tiers
+    # (the thorough tier widens the action set instead)
+    return 2 if tier == "quick" or prop == "C35" else 3
 
 
 BASE_RULE = ("tour: TLC enumerates every abstract file reachable by <= %d construction steps (messages in pre-order, enums, "
@@ -294,7 +296,7 @@ LINKED_NOTE = ("linked files whose FileDescriptorProto carries fields outside th
 
 
 def _nlinked(tier):
-    return 20 if tier == "quick" else 1000
+    return 12 if tier == "quick" else 1000
 
 
 # --------------------------------------------------------------------------- C34
@@ -306,10 +308,10 @@ def c34(res, tier, seed):
          "schema space, %d steps; laws: machine stays valid, Normal idempotent and Views-preserving" % s, "c34")
     res.exhaustive = True
     t = Traces(res, tier)
-    t.add(b, "linked", _nlinked(tier), seed, want="snap,back,rt")
-    t.add(b, "schemas", 100 if tier == "quick" else 4000, seed, want="snap,back,rt")
+    t.add(b, "linked", _nlinked(tier), seed, want="snap,back,rt,nsame")
+    t.add(b, "schemas", 60 if tier == "quick" else 4000, seed, want="snap,back,rt")
     if tier != "quick":
-        t.add(build_harness(("desc",), tags="verif,protolegacy"), "linked", 1000, seed, want="snap,back,rt", tags="verif,protolegacy")
+        t.add(build_harness(("desc",), tags="verif,protolegacy"), "linked", 1000, seed, want="snap,back,rt,nsame", tags="verif,protolegacy")
     t.finish()
     res.rule = (BASE_RULE % s + "each must be accepted by NewFile, show Views(file) on every accessor, come back from "
                 "ToFileDescriptorProto as Normal(file) and be reproduced by NewFile(ToFileDescriptorProto(d)); "
@@ -325,14 +327,14 @@ def c34(res, tier, seed):
 @check("C35")
 def c35(res, tier, seed):
     b = build_harness(("desc",))
-    s = _steps(tier)
+    s = _steps(tier, "C35")
     tour(res, b, "MC_SchemaSpace", mc_cfg(tier, "C35", s, ["StaysValid", "InjectionInvalid"]),
          "schema space, %d steps, x every applicable invalidity injection x both AllowUnresolvable settings; "
          "law: every injection exhibits its defect class" % s, "c35", timeout=6000)
     res.exhaustive = True
     t = Traces(res, tier)
-    t.add(b, "mutants", 400 if tier == "quick" else 30000, seed, want="snap")
-    t.add(b, "fuzz", 300 if tier == "quick" else 30000, seed + 1)
+    t.add(b, "mutants", 250 if tier == "quick" else 30000, seed, want="snap")
+    t.add(b, "fuzz", 250 if tier == "quick" else 30000, seed + 1)
     t.finish()
     res.rule = (BASE_RULE % s + "plus, from each, every applicable one of ~110 invalidity injections (duplicate names/numbers, "
                 "invalid/overlapping ranges, reserved names/numbers, extension-range clashes, malformed maps/groups, oneof "
@@ -354,8 +356,8 @@ def c36(res, tier, seed):
     res.exhaustive = True
     t = Traces(res, tier)
     t.add(b, "linked", _nlinked(tier), seed + 7, want="snap")
-    t.add(b, "schemas", 80 if tier == "quick" else 4000, seed, want="snap")
-    t.add(b, "mutants", 150 if tier == "quick" else 10000, seed + 2, want="snap")
+    t.add(b, "schemas", 50 if tier == "quick" else 4000, seed, want="snap")
+    t.add(b, "mutants", 100 if tier == "quick" else 10000, seed + 2, want="snap")
     if tier != "quick":
         t.add(build_harness(("desc",), tags="verif,protolegacy"), "linked", 1000, seed, want="snap", tags="verif,protolegacy")
     t.finish()
@@ -375,10 +377,10 @@ def c37(res, tier, seed):
          "descriptor and not depend on the order in which accessors trigger lazy initialisation" % s, "c37")
     res.exhaustive = True
     t = Traces(res, tier)
-    t.add(b, "linked", _nlinked(tier), seed + 13, want="snap,bsame,blazy")
-    t.add(b, "schemas", 100 if tier == "quick" else 4000, seed, want="bsnap,bsame,blazy")
+    t.add(b, "linked", _nlinked(tier), seed + 13, want="snap,nsame,bsame,blazy")
+    t.add(b, "schemas", 60 if tier == "quick" else 4000, seed, want="bsnap,bsame,blazy")
     if tier != "quick":
-        t.add(build_harness(("desc",), tags="verif,protolegacy"), "linked", 1000, seed, want="snap,bsame,blazy", tags="verif,protolegacy")
+        t.add(build_harness(("desc",), tags="verif,protolegacy"), "linked", 1000, seed, want="snap,nsame,bsame,blazy", tags="verif,protolegacy")
     t.finish()
     res.rule = (BASE_RULE % s + "three constructions per file -- protodesc.NewFile, filedesc.Builder (accessors in declaration "
                 "order), filedesc.Builder (extensions/enums first, messages backwards, file options last) -- must agree with "
@@ -391,21 +393,22 @@ def c37(res, tier, seed):
 def c38(res, tier, seed):
     b = build_harness(("desc",))
     quick = tier == "quick"
-    for ed in ([1000] if quick else [1000, 1001]):
+    runs = [(1000, "small", 1)] if quick else [(1000, "full", 1), (1001, "full", 1), (1000, "small", 2)]
+    for ed, skel, k in runs:
         tour(res, b, "MC_FeatureResolve",
-             cfg({"Tier": '"%s"' % tier, "MaxOverrides": 1 if quick else 2, "Edition": ed, "Skel": '"small"' if quick else '"full"'},
+             cfg({"Tier": '"%s"' % tier, "MaxOverrides": k, "Edition": ed, "Skel": '"%s"' % skel},
                  invariants=["TwoDefinitionsAgree", "Laws"], emit="Emit", view="View"),
-             "edition %d skeleton x <= %d overrides: 22 (feature, value) settings x every placement (file, messages, fields, enums, "
-             "extensions); laws: fold = nearest explicit setting, Views reports ResolveNearest, derived semantics" % (ed, 1 if quick else 2),
-             "c38-%d" % ed, timeout=6000)
+             "edition %d, %s skeleton x <= %d overrides: 22 (feature, value) settings x every placement (file, messages, fields, "
+             "enums, extensions); laws: fold = nearest explicit setting, Views reports ResolveNearest, derived semantics" % (ed, skel, k),
+             "c38-%d-%s-%d" % (ed, skel, k), timeout=6000)
     res.exhaustive = True
     t = Traces(res, tier)
     t.add(b, "defaults", 5, seed)
     t.add(b, "pairschema", 10, seed)
-    t.add(b, "pair", 1500 if quick else 100000, seed)
-    t.add(b, "schemas", 60 if quick else 3000, seed + 3, want="snap,bsnap,bsame")
+    t.add(b, "pair", 1200 if quick else 40000, seed)
+    t.add(b, "schemas", 40 if quick else 3000, seed + 3, want="snap,bsnap,bsame")
     t.finish()
-    res.rule = ("tour: every valid placement of up to %d feature overrides on an editions skeleton, resolved features and derived "
+    res.rule = ("tour: every valid placement of up to %d feature overrides on editions skeletons, resolved features and derived "
                 "accessors (HasPresence, IsPacked, IsClosed, EnforceUTF8, group kind, required cardinality, Go features) of both "
                 "constructions vs Resolve; driver: edition defaults of 5 editions, schema equivalence of 6 proto2/proto3-vs-editions "
                 "type pairs (exact for editionsfuzztest, up to packing/UTF-8 for test<->testeditions), lock-step decode of random and "
